@@ -14,8 +14,8 @@ FILES = ["src/stereomolgraph/graphs/mg.py", "src/stereomolgraph/graphs/smg.py", 
 FUNCTIONS = ["MolGraph.* (every public method)", "StereoMolGraph.*", "CondensedReactionGraph.*", "StereoCondensedReactionGraph.*"]
 BOUNDS = {"quick": "identifier universe {0,1,2} + one absent id; solver-enumerated pre-states: all graphs on it (presence x bond bits), "
                    "extra attributes, role/descriptor/change decorations (listed restrictions); per pre-state an inner finite conjunction over "
-                   "4 representation flavours (fresh, relabelled in place, composed, subgraph) x every public operation x every argument tuple over the universe; one step from every family member",
-          "thorough": "same with universe {0,1,2,3} for MG/CRG, 8 flavours and all decorations for SMG/SCRG"}
+                   "4 representation flavours (fresh, relabelled in place, composed, subgraph) x every public operation x every argument tuple over the universe; one step from every family member; insertion_order: 4 atoms inserted in all 24 orders (identifier sets 0..3 and non-contiguous), all 64 bond sets, then remove + re-add of the second atom: positional views follow `atoms`",
+          "thorough": "same with universe {0,1,2,3} for MG/CRG, 8 flavours and all decorations for SMG/SCRG; insertion_order with three identifier sets for all classes"}
 OUTSIDE = "universes > 4 identifiers; attribute values other than the sampled ones; histories whose states leave the family (closure not yet machine-checked)"
 ASSUMPTIONS = ["pre-states are built through the public API by a canonical recipe followed by one representation-changing derivation (flavour)",
                "outcomes the property does not fix (re-adding an existing atom/bond, deleting an unset attribute/descriptor) accept either 'raises and unchanged' or the documented effect"]
@@ -129,8 +129,44 @@ def _unit(name, func, cls, k, restrict=None, shard_by=("p0", "p1", "p2")):
                nontrivial="p0 or p1 or p2")
 
 
+ORDER_IDS = [(0, 1, 2, 3), (0, 2, 5, 3), (1, 2, 3, 4)]
+
+
+def insertion_order(cls, o, ids, b01, b02, b03, b12, b13, b23):
+    """four atoms inserted in every order (identifier sets 0..3, non-contiguous, not starting at 0), every bond set: the positional views
+    (connectivity_matrix, atom_types, bond_orders-free views) must follow the order of `atoms`, whatever the identifiers are"""
+    import itertools
+    cname = gl.CLS_NAMES[cls]
+    g = gl.CLS[cname]()
+    idv = ORDER_IDS[ids]
+    perm = list(itertools.permutations(range(4)))[o]
+    els = ("C", "H", "O", "N")
+    for i in perm:
+        g.add_atom(idv[i], els[i])
+    bits = {(0, 1): b01, (0, 2): b02, (0, 3): b03, (1, 2): b12, (1, 3): b13, (2, 3): b23}
+    for (i, j), on in bits.items():
+        if on:
+            g.add_bond(idv[j], idv[i])
+    msg = gl.coherent(g)
+    if msg:
+        return f"atoms inserted as {[idv[i] for i in perm]}, bonds {[(idv[i], idv[j]) for (i, j), on in bits.items() if on]}: {msg}"
+    if list(g.atoms) != [idv[i] for i in perm]:
+        return f"atoms {list(g.atoms)} are not in insertion order {[idv[i] for i in perm]}"
+    # remove the second-inserted atom and re-insert it: it must now come last in every positional view
+    a = idv[perm[1]]
+    g.remove_atom(a)
+    g.add_atom(a, "F")
+    msg = gl.coherent(g)
+    if msg:
+        return f"after remove_atom({a}) + add_atom({a}) on insertion order {[idv[i] for i in perm]}: {msg}"
+    return None
+
+
 def plan(tier, seed):
     units = []
+    units.append(Sel(name="insertion_order", func="vp.props.C09:insertion_order",
+                     params={"cls": (0, 4), "o": (0, 24), "ids": (0, 3), "b01": "bool", "b02": "bool", "b03": "bool", "b12": "bool", "b13": "bool", "b23": "bool"},
+                     pre=["ids < 2", "cls < 2 or (ids == 0 and o % 3 == 0)"] if tier == "quick" else [], shard_by=[], timeout=1200, nontrivial="o > 0"))
     if tier == "quick":
         for cls in range(4):
             cname = gl.CLS_NAMES[cls]
